@@ -4,7 +4,7 @@ import ast, re
 import networkx as nx
 from ..core import expr as X
 from ..core import interp as I
-from ..core.interp import Interp, Arr, Frame, Opaque, Ref, RaiseSignal
+from ..core.interp import Interp, Arr, Frame, Opaque, Ref, RaiseSignal, Obj
 from ..core.lints import loop_progress, prune_flags
 from ..core.report import AnalysisError
 from ..frontend.pyfront import Repo
@@ -97,10 +97,11 @@ def run(chk):
     buffers(chk, repo, ms, f)
     success_protocol(chk, repo, ms, f)
     totality(chk, repo)
+    kernel_extents(chk, repo)
     status_discipline(chk, repo, ms, f)
     length_guards(chk, repo, ms)
     chk.floor('R06.5', 2); chk.floor('R06.6', 4)
-    chk.floor('R06.1', 5); chk.floor('R06.2', 20); chk.floor('R06.3', 8); chk.floor('R06.4', 10)
+    chk.floor('R06.1', 5); chk.floor('R06.2', 60); chk.floor('R06.3', 8); chk.floor('R06.4', 10)
 
 
 # ------------------------------------------------------------------------------------------------ R06.1
@@ -596,3 +597,91 @@ def length_guards(chk, repo, ms):
     for nm in handed:
         chk.ob('R06.6', f'radial_solver (Python entry): the length of `{nm}` is checked against the radius array before its buffer is handed to cf_radial_solver', nm in guarded,
                f'`{nm}` reaches cf_radial_solver as a raw pointer without any length check (checked arrays: {sorted(guarded)})', ms.where(c), key=f'R06.6|{nm}', method='AST guard-before-use over the top-level statements of the entry point')
+
+
+# ------------------------------------------------------------------------------------------------ R06.2 (d): every kernel on buffers of exactly the documented size
+def kernel_extents(chk, repo):
+    """Each numerical kernel of the solver is interpreted on arrays whose extents are exactly what its caller allocates (MAX_NUM_Y x MAX_NUM_SOL = 6 x 3 for
+    starting / interface blocks, 3 constants per layer, 2 x (number of ys) for the ODE state, ...); the interpreter logs every access outside an extent."""
+    from . import c04 as C4
+    MAXY = 6
+    G = X.atom('G', 'pos')
+    lsym = X.atom('l', 'pos')
+    C4.install_rules(lsym)
+
+    def report(label, where, key):
+        oob = sorted({(name, ext, k, kind_, getattr(node, 'lineno', None)) for name, ext, k, kind_, node in I.OOB_LOG})
+        chk.ob('R06.2', f'{label}: every access stays inside buffers of the size its caller provides', not oob,
+               '; '.join(f'{kind_} of element {k} of {name} (extent {ext}) at line {ln}' for name, ext, k, kind_, ln in oob[:4]), where, key=key, method='abstract interpretation with extent-checked arrays')
+    # (1) starting conditions: 3 x 6 block
+    atoms = {'w': X.atom('w', 'pos'), 'r': X.atom('r', 'pos'), 'rho': X.atom('rho', 'pos'), 'K': X.atom('K', 'pos'), 'mu': X.atom('mu', 'complex'), 'l': lsym, 'G': G}
+    for (fname, file_, kind, static, incomp, nsol, plist) in C4.FUNCS:
+        m = repo.by_path(f'TidalPy/RadialSolver/starting/{file_}.pyx')
+        f = need_func(m, fname)
+        I.OOB_LOG.clear()
+        out = Arr('starting_conditions'); out.extent = 3 * MAXY
+        C4.make_interp(repo).call(m, f, [atoms[p] for p in plist] + [MAXY, out])
+        report(f'{fname} (output block 3 x 6)', m.where(f), f'R06.2|extent|{fname}')
+    # (2) downward interface constants: 3 per layer; lower block 3 x 6
+    mr = repo.by_path('TidalPy/RadialSolver/interfaces/reversed.pyx')
+    fdn = need_func(mr, 'cf_top_to_bottom_interface_bc')
+    kinds = (('solid', False), ('solid', True), ('liquid', False), ('liquid', True))
+    for (lk, ls) in kinds:
+        for (uk, us) in kinds:
+            nl = ts72.NUM_SOLS[(lk, ls)]; nu = ts72.NUM_SOLS[(uk, us)]
+            I.OOB_LOG.clear()
+            clow = Arr('constant_vector'); clow.extent = 3
+            cab = Arr('layer_above_constant_vector', default=lambda k: X.atom(f'Cup{k}', 'complex')); cab.extent = 3
+            L = Arr('uppermost_y_per_solution', default=lambda k: X.atom(f'L{k}', 'complex')); L.extent = 3 * MAXY
+            a_ = [X.atom(n_, 'pos') for n_ in ('g_lo', 'g_up', 'rho_lo', 'rho_up')]
+            Interp(repo).call(mr, fdn, [clow, cab, L] + a_ + [0 if lk == 'solid' else 1, 0 if uk == 'solid' else 1, ls, us, False, False, nl, MAXY])
+            report(f'cf_top_to_bottom_interface_bc lower {lk}/{"static" if ls else "dynamic"}, upper {uk}/{"static" if us else "dynamic"} (3 constants, 3 x 6 block)', mr.where(fdn),
+                   f'R06.2|extent|reversed|{lk}|{ls}|{uk}|{us}')
+    # (3) ODE right-hand sides: y and dy hold 2 x (number of ys) doubles
+    from . import solver_model as SM
+    mo = repo.by_path('TidalPy/RadialSolver/derivatives/odes.pyx')
+    for (kind, static, incomp), cname in SM.CLASSES.items():
+        nys = len(ts72.LAYOUT[(kind, static)])
+        I.OOB_LOG.clear()
+        cls = need_class(mo, cname); ms_ = methods(cls)
+        P = SM.params()
+        y_ptr = Arr('y_ptr', default=lambda k: X.atom(f'yy{k}')); y_ptr.extent = 2 * nys
+        dy_ptr = Arr('dy_ptr'); dy_ptr.extent = 2 * nys
+        l_ = P['l']
+        so = Obj(cls=('class', mo, cls), name=cname, attrs={'t_now': P['r'], 'density': P['rho'], 'gravity': P['g'], 'shear_modulus': P['mu'], 'bulk_modulus': P['K'], 'frequency_to_use': P['w'],
+                                                          'grav_coeff': P['fpG'], 'lp1': l_ + 1, 'lm1': l_ - 1, 'llp1': l_ * (l_ + 1), 'degree_l': l_, 'y_ptr': y_ptr, 'dy_ptr': dy_ptr,
+                                                          'update_interp': (lambda *a, **k: None)})
+        Interp(repo).call(mo, ms_['diffeq'], [], {}, self_obj=so)
+        report(f'{cname}.diffeq (state and derivative vectors of {2 * nys} doubles)', mo.where(ms_['diffeq']), f'R06.2|extent|{cname}')
+    # (4) collapse, Love numbers, re-dimensionalisation
+    mc = repo.by_path('TidalPy/RadialSolver/collapse/collapse.pyx'); fc = need_func(mc, 'cf_collapse_layer_solution')
+    for (kind, static) in (('solid', False), ('liquid', False), ('liquid', True)):
+        nys = len(ts72.LAYOUT[(kind, static)]); nsol = ts72.NUM_SOLS[(kind, static)]
+        nsl, ntyp = 3, 2
+        for ytype in range(ntyp):
+            I.OOB_LOG.clear()
+            sols = []
+            for s_ in range(nsol):
+                a_ = Arr(f'solution_storage[{s_}]', default=lambda k, s_=s_: X.atom(f's{s_}_{k}', 'complex')); a_.extent = nsl * nys
+                sols.append(a_)
+            storage = Arr('storage_by_solution', default=lambda k: sols[k]); storage.extent = nsol
+            cv = Arr('constant_vector', default=lambda k: X.atom(f'C{k}', 'complex')); cv.extent = 3
+            out = Arr('solution'); out.extent = nsl * MAXY * ntyp
+            rad = Arr('radius', default=lambda k: X.atom(f'r{k}', 'pos')); rad.extent = nsl
+            den = Arr('density', default=lambda k: X.atom(f'rho{k}', 'pos')); den.extent = nsl
+            grv = Arr('gravity', default=lambda k: X.atom(f'g{k}', 'pos')); grv.extent = nsl
+            Interp(repo).call(mc, fc, [out, cv, storage, rad, den, grv, X.atom('w', 'pos'), 0, nsl, nsol, MAXY, nys, MAXY * ntyp, ytype, 0 if kind == 'solid' else 1, static, False])
+            report(f'cf_collapse_layer_solution, {kind}{" static" if static else ""} layer, solution type {ytype} of {ntyp} ({nsl} slices)', mc.where(fc), f'R06.2|extent|collapse|{kind}|{static}|{ytype}')
+    ml = repo.by_path('TidalPy/RadialSolver/love.pyx'); fl = need_func(ml, 'find_love_cf')
+    I.OOB_LOG.clear()
+    lo = Arr('complex_love_numbers'); lo.extent = 3
+    sv = Arr('surface_solutions', default=lambda k: X.atom(f'ys{k}', 'complex')); sv.extent = MAXY
+    Interp(repo).call(ml, fl, [lo, sv, X.atom('gs', 'pos')])
+    report('find_love_cf (3 Love numbers from 6 surface values)', ml.where(fl), 'R06.2|extent|find_love_cf')
+    md = repo.by_path('TidalPy/utilities/dimensions/nondimensional.pyx'); fy = need_func(md, 'cf_redimensionalize_radial_functions')
+    I.OOB_LOG.clear()
+    nsl, ntyp = 3, 2
+    buf = Arr('radial_function', default=lambda k: X.atom(f'ynd{k}', 'complex')); buf.extent = nsl * MAXY * ntyp
+    for k in range(nsl * MAXY * ntyp): buf.store[k] = buf.default(k)
+    Interp(repo, hooks={'global': lambda itp, m_, nm: X.atom('Gconst', 'pos') if nm in ('G', 'G_') else None}).call(md, fy, [buf, X.atom('R', 'pos'), X.atom('rhob', 'pos'), nsl, ntyp])
+    report(f'cf_redimensionalize_radial_functions ({nsl} slices x {ntyp} types x 6)', md.where(fy), 'R06.2|extent|redimensionalize_radial_functions')
